@@ -428,3 +428,17 @@ Proof.
 Qed.
 Example C02_hyp_voxel : lt3 (mkV3 0 0 0) (mkV3 4 2 1) /\ pos3 (4, 2, 1)%Z /\ nonneg3 (4, 0, 1)%Z /\ le_i3 (4, 0, 1)%Z (4, 2, 1)%Z.
 Proof. unfold lt3, pos3, nonneg3, le_i3; cbn [wx wy wz]. repeat split; try lra; try reflexivity; discriminate. Qed.
+
+(* ---- inventory of mutable state (DESIGN.md 2.3).  The models above are functions of their arguments; they are
+   faithful only as long as the code keeps no state between calls beyond what they mention.  The package-level
+   variables and struct fields in the scope of C02 (and which of them are written outside construction, from which
+   entry points) are regenerated from the current source on every run (harness/stategen -> Generated/StateInv.v)
+   and contain no state beyond the expected, reviewed inventory of Sys/StateInvSpec.v, where every piece of state
+   that legitimately exists names the model component that accounts for it.  Breaks when a written package-level
+   variable, a struct field, or a write of a field outside its constructor is added in scope (coqc then prints the
+   differences); tolerates moved declarations, reordered fields, renamed locals, new helpers / constants / tables
+   nothing writes. *)
+From Sdfx Require Sys.StateInvSpec Sys.StateInvC02.
+Theorem C02_state_inventory : Sdfx.Sys.StateInvSpec.state_ok_C02 = true.
+Proof. exact Sdfx.Sys.StateInvC02.C02_state_inventory. Qed.
+Print Assumptions C02_state_inventory.
